@@ -783,6 +783,8 @@ impl<'a> GeneratorState<'a> {
                         return Err(self.compiler_state.syntax_error("Code too complex for the compiler", pos))
                     }
                     self.sasm(PHA)?; 
+                    // A is saved: the condition can use it (and must not save it again)
+                    self.acc_in_use = false;
                     self.local_label_counter_if += 1;
                     let ifend_label = format!(".ifend{}", self.local_label_counter_if);
                     let else_label = format!(".else{}", self.local_label_counter_if);
@@ -793,7 +795,9 @@ impl<'a> GeneratorState<'a> {
                     self.asm(LDA, &ExprType::Immediate(0), pos, false)?;
                     self.label(&ifend_label)?;
                     self.asm(STA, &ExprType::Tmp(false), pos, false)?;
+                    self.tmp_in_use = true;
                     self.sasm(PLA)?;
+                    self.acc_in_use = true;
                     Ok(ExprType::Tmp(false))
                 } else {
                     self.local_label_counter_if += 1;
